@@ -46,6 +46,8 @@ type Prog struct {
 	boundedChecks  []boundedCheck
 	wireCache      map[string]*wirePair
 	wireProps      []string
+	wireTypes      map[string]map[string]bool // property -> types (nil: every pair)
+	wireClauses    map[string]map[string]bool // property -> clause labels (nil: all)
 }
 
 type ghostFunDecl struct {
